@@ -152,7 +152,7 @@ def _get_file_signature(filename: str | Path) -> tuple[int, int] | None:
     from pyxel.util import resolve_with_working_directory
 
     try:
-        stat = Path(resolve_with_working_directory(filename)).stat()
+        stat = Path(resolve_with_working_directory(filename)).expanduser().stat()
     except (OSError, ValueError):
         # Not a local file (e.g. an URL)
         return None
